@@ -6,12 +6,13 @@ mod c01;
 mod c03;
 mod c04;
 mod c10;
+mod c11;
 mod c15;
 mod c20;
 
 fn main() {
     // silence panic messages from catch_unwind'ed implementation panics
-    std::panic::set_hook(Box::new(|_| {}));
+    if std::env::var("FV_PANIC").is_err() { std::panic::set_hook(Box::new(|_| {})); }
     let args: Vec<String> = std::env::args().collect();
     let cmd = args.get(1).map(|s| s.as_str()).unwrap_or("");
     let seed: u64 = args.get(2).and_then(|s| s.parse().ok()).unwrap_or(1);
@@ -21,6 +22,8 @@ fn main() {
         .unwrap_or_else(|| vec![1, 2, 3, 4, 6, 255]);
     let rc = match cmd {
         "c01" => c01::run(seed, count, &outdir, &budgets).unwrap(),
+        "c11" => c11::run(seed, count, &outdir).unwrap(),
+        "c11-chunk" => { let lo = count; let hi: usize = outdir.parse().unwrap(); c11::run_chunk(seed, lo, hi); 0 }
         "c10" => c10::run(seed, count, &outdir).unwrap(),
         "c15" => c15::run(seed, count, &outdir).unwrap(),
         "c20" => c20::run(seed, count, &outdir).unwrap(),
